@@ -241,6 +241,58 @@ def transport_cases(framing):
         yield 'too-long', f + b'\x00'
 
 
+FACTORY_OPS = (('read', 47000, 1), ('write', 47000, 1), ('multi', 47000, 1), ('read', 47000, 3), ('write', 47000, 3), ('read', 47001, 1),
+               ('write', 47000, -1), ('read', 1, 1), ('write', 1, 1))
+
+
+def run_factory_pair(framing, a, b, ka):
+    """Two commands built by ONE protocol object's factory methods (read_command / write_command /
+    write_multi_command) whose arguments collide (same register; count == value == register count), executed one after the
+    other against an inverter that answers honestly to whatever arrives on the wire.  Whatever the second call returns as
+    its successful result is a well-formed answer to the operation that CALL stands for."""
+    world.reset()
+
+    def honest(k, req, now):
+        try:
+            rq = wire.parse_tcp_request(req) if framing == 'tcp' else wire.parse_rtu_request(req)
+        except wire.BadRequest:
+            return []
+        fn = rq['fn']
+        if fn == 3:
+            pdu = bytes([3, 2 * rq['count']]) + bytes((7 * i + 1) & 0xFF for i in range(2 * rq['count']))
+        elif fn == 6:
+            pdu = bytes([6]) + struct.pack('>HH', rq['reg'], rq['value'])
+        else:
+            pdu = bytes([16]) + struct.pack('>HH', rq['reg'], rq['count'])
+        f = wire.mbap(req[:2], rq['unit'], pdu) if framing == 'tcp' else wire.rtu_frame(rq['unit'], pdu)
+        return [(D0, ('data', f))]
+    peer = PlanPeer(honest)
+    loop = KLoop(peer)
+    p = make_protocol('tcp' if framing == 'tcp' else 'udp', 1, 0, ka)
+
+    def build(op):
+        kind, reg, n = op
+        if kind == 'read':
+            return p.read_command(reg, n), dict(kind='read', count=n)
+        if kind == 'write':
+            return p.write_command(reg, n), dict(kind='write', reg=reg, value=n)
+        return p.write_multi_command(reg, bytes(2 * abs(n))), dict(kind='multi', reg=reg, count=abs(n))
+    vio = []
+    for i, op in enumerate((a, b)):
+        cmd, spec = build(op)
+        st, res = loop.run(_exec(cmd, p))
+        if st == 'hang':
+            vio.append(('validator-terminates', f'{op}'))
+            break
+        if res[0] == 'ok':
+            cls = wire.classify_response(framing, spec, bytes(res[1]))
+            if cls != 'wellformed':
+                vio.append(('delivered-only-wellformed/commands-of-one-object',
+                            f'{op[0]}({op[1]}, {op[2]}) {"after " + a[0] + str(a[1:]) if i else "first"} completed with {bytes(res[1]).hex()[:40]} '
+                            f'- for that call the frame is {cls}'))
+    return vio
+
+
 PRIOR_KINDS = ('none', 'typed-same', 'typed-other', 'raw-same-bytes', 'raw-other-bytes')
 
 
@@ -395,6 +447,13 @@ def run(tier, seed, rep):
         rep.add_many(res)
         if sample and len(samples) < 4:
             samples.append(sample)
+    nfp = 0
+    for framing in ('rtu', 'tcp'):
+        for a, b in itertools.permutations(FACTORY_OPS, 2):
+            for ka in (False, True):
+                nfp += 1
+                for clause, cause in run_factory_pair(framing, a, b, ka):
+                    rep.add(f'{clause}/{framing}/{b[0]}-after-{a[0]}', clause, dict(part='F', framing=framing, a=list(a), b=list(b), ka=ka), dict(cause=cause))
     nt = 0
     for framing in ('rtu', 'tcp', 'aa55'):
         for name, data in transport_cases(framing):
@@ -407,7 +466,7 @@ def run(tier, seed, rep):
                                 dict(part='K', framing=framing, name=name, ka=ka, prior=prior,
                                      data='|'.join(x.hex() for x in data) if isinstance(data, tuple) else data.hex()),
                                 dict(cause=cause, earlier_request=prior))
-    cov = dict(session_histories=_ses.executions, evaluations=total + nt + ncross, distinct_nontrivial=nontriv, cross_command_evaluations=ncross,
+    cov = dict(factory_command_pairs=nfp, session_histories=_ses.executions, evaluations=total + nt + ncross, distinct_nontrivial=nontriv, cross_command_evaluations=ncross,
                rule='strings = every prefix + every single-bit flip of every canonical frame, field-grammar product '
                     '(header x unit x function x byte count x bytes present x checksum variant x trailing; echoed '
                     'register/value variants for writes; AA55 length/type/checksum variants), all strings of length<=2 '
@@ -427,6 +486,8 @@ def replay(r):
         out = sessions.replay(r)
         out['violations'] = [m for m in out['violations'] if m[0] == 'C01']
         return out
+    if r['part'] == 'F':
+        return dict(violations=run_factory_pair(r['framing'], tuple(r['a']), tuple(r['b']), r['ka']))
     if r['part'] == 'C':
         from ..findings import Report
         rp = Report('C01')
